@@ -98,34 +98,32 @@ CHECKS = {
         'DESIGN.md section 5 C11',
     ),
     'C01': (
-        'Rocq proof: properties of the reference denotation + a symbol-table validator proved sound for all graphs and tables '
-        '(translation validation of the real flow.compile output on every generated segment) + executable model of the '
-        'compiler algorithm, proved correct for all segments without persistent groups under every visiting order and tied '
-        'symbol-for-symbol to the real table by the correspondence run',
-        'PARTIAL. Model/C01.v is the reference denotation of a segment over free terms (every actor an uninterpreted symbol): '
-        'argument order, per-port getters, state of the sibling trained in the same run, previous states loaded and new states '
-        'committed per persistent group at its list position. Proved about it: each task evaluated exactly once and '
-        'functionally, state binding of derived actors, trained state construction, commit positions. Model/C01Compile.v adds '
-        '(a) the instruction semantics (Functor/Apply/Train/SetState preset, Loader, Dumper, Getter, Committer) as an evaluator '
-        'of position-based symbol tables, (b) a validator `validate`/`valid_commit` proved sound for EVERY graph, accessor and '
-        'table (C01_table_sound, C01_port_value, C01_commit_sound: an accepted table evaluates at every node functor to the '
-        'graph value and at the committer to the trained states at their list positions), and (c) an executable model of the '
-        'compiler algorithm itself (Table.add, Linkage.insert/update/prepend/leaves, Index.set/reset, __iter__ with groupby '
-        'alias merge and stub-getter pruning, every assertion as an error). On every generated segment (multi-output, unused '
-        'ports, fork groups, arbitrary train/label sources, every connection order, any persistent subset/order) the real '
-        'flow.compile output must (1) equal the compiler model output symbol for symbol under the recorded traversal order, '
-        '(2) be accepted by the proved validator, (3) evaluate in Coq to the sink term the independent Python interpreter '
-        'obtained, and (4) match the denotation in sink term, commit list, loads and one call per task; every generated '
-        'segment is also checked to satisfy the hypothesis wfb of the correctness theorem. (d) COMPILER CORRECTNESS of the '
-        'model, proved (C01_compile_correct_partial, C01_compile_dataflow_partial; 1 900 lines: Proofs/C01Prim, C01Blocks, '
-        'C01Inv, C01Step, C01Emit, C01Canon, C01Main): for every well-formed segment without persistent groups and EVERY '
-        'visiting order (any permutation of the nodes) Table.add never hits an assertion, Linkage.leaves finds a leaf, '
-        '__iter__ resolves every argument, and the emitted table is accepted by the validator, hence evaluates at every node '
-        'to the value of direct graph evaluation. Not proved: the same with persistent groups (loader re-keying, dumper / '
-        'committer wiring) - there acceptance is computed per case by vm_compute.',
-        BASE_NOTE + 'With persistent groups the all-inputs guarantee rests on validator soundness (proved) + acceptance of each '
-        'emitted table (computed per case); without them it is a theorem about the compiler model, which is tied to the real '
-        'compiler by symbol-for-symbol comparison on every generated segment.',
+        'Rocq proof: compiler correctness of an executable model of flow.compile for every well-formed segment, accessor and '
+        'visiting order (table invariant over any order of Table.add + a symbol-table validator proved sound) + symbol-for-symbol '
+        'correspondence of the model with the real compiler output and translation validation of that output on every generated segment',
+        'Model/C01.v is the reference denotation of a segment over free terms (every actor an uninterpreted symbol): argument '
+        'order, per-port getters, state of the sibling trained in the same run, previous states loaded and new states committed '
+        'per persistent group at its list position. Model/C01Compile.v holds (a) the instruction semantics (Functor/Apply/Train/'
+        'SetState preset, Loader, Dumper, Getter, Committer) as an evaluator of position-based symbol tables, (b) a validator '
+        '`validate`/`valid_commit` proved sound for EVERY graph, accessor and table (C01_table_sound, C01_port_value, '
+        'C01_commit_sound), (c) an executable model of the compiler algorithm itself (Table.add, Linkage.insert/update/prepend/'
+        'leaves, Index.set/reset, __iter__ with groupby alias merge and stub-getter pruning, every assertion as an error). '
+        'PROVED (C01_compile_correct, C01_compile_dataflow; 3 000 lines: Proofs/C01Prim, C01Blocks, C01Inv, C01Step, C01Emit, '
+        'C01Canon, C01Main): for every asset accessor, every well-formed segment (wfb: ports fed by existing outputs of earlier '
+        'non-trained nodes; trained members stateful, unique per group and listed before the applied members; accessor groups '
+        'distinct and either all or none trained in the segment) and EVERY visiting order (any permutation of the nodes), no '
+        'assertion of Table.add / Linkage.insert / Index.set / Linkage.leaves fires, __iter__ resolves every argument, the loader '
+        're-keying, dumper and committer wiring are right, and the emitted table evaluates at every node to the value of direct '
+        'graph evaluation and at the committer to the states trained in this run at the list positions. Also proved about the '
+        'denotation: each task evaluated once and functionally, state binding, trained state, commit positions. Tie to the code: on '
+        'every generated segment (multi-output, unused ports, fork groups, arbitrary train/label sources, every connection order, '
+        'any persistent subset/order) the real flow.compile output must equal the model output symbol for symbol under the '
+        'recorded traversal order, be accepted by the validator, evaluate in Coq to the sink term the independent Python '
+        'interpreter obtained, match the denotation (sink, commit list, loads, one call per task), and the segment must satisfy '
+        'wfb. PARTIAL only in what is outside the model: Traversal.each (its order is recorded, and arbitrary in the theorem), '
+        'the truthiness test of Preset.reduce, the runners executing the table (C02).',
+        BASE_NOTE + 'The theorems are about the Gallina compiler model; its identity with forml/flow/_code/compiler.py is checked by '
+        'symbol-for-symbol comparison on the generated segments, not proved.',
         'DESIGN.md section 5 C01 and section 10.9',
     ),
     'C02': (
